@@ -1482,7 +1482,7 @@ VARIANTS = [
 
 META = {
     "design_ref": "DESIGN.md section 3, C03",
-    "technique": "path-condition must-analysis (rollback dominance, write guard) + interprocedural safe-text summary + application-order check of in-loop text splices",
+    "technique": "path-condition must-analysis (rollback dominance, write guard) + interprocedural safe-text summary + application-order check of in-loop text splices; regex-AST checks of whitespace editors and widened deletions; encoding symmetry of read-modify-write; node-kind check of `lineno - 1` insertion lines",
     "level_text": ("Decides on the current source that the scheduled rewrite back-ends (_apply_rewrites, _replace_nodes, "
                    "fix_import_spacing, the fix/chain wrappers) can only return their input or a text that passed "
                    "core.is_valid_python, that file writes are guarded by changed-and-(valid-or-was-invalid), and that "
